@@ -317,6 +317,115 @@ fn case(t0: &mut Tape, w: &Worker) -> CaseResult {
     Ok(out)
 }
 
+/// The stop request is one shared flag (signal handler, error cap, fatal message all raise it).  Model of its final
+/// value for any message history: raised iff a stop was requested from outside, or the error cap was reached, or a
+/// fatal message arrived.  In particular a request is never withdrawn by later messages, and nothing else raises it.
+fn stop_flag_case(t: &mut Tape, w: &Worker) -> CaseResult {
+    use fastpasta::config::test_util::MockConfig;
+    use fastpasta::config::view::ViewCommands;
+    use fastpasta::stats::StatType;
+    use std::sync::atomic::Ordering;
+    use std::sync::{Mutex, OnceLock};
+    crate::inproc::init_global_config();
+    static CFGS: OnceLock<Mutex<std::collections::HashMap<u32, &'static MockConfig>>> = OnceLock::new();
+    let cap = *t.pick(&[0u32, 0, 1, 2, 3, 5, 8, 13, 4_000_000_000]);
+    let cfg: &'static MockConfig = {
+        let mut m = CFGS.get_or_init(Default::default).lock().unwrap();
+        *m.entry(cap).or_insert_with(|| {
+            let mut c = MockConfig::new();
+            c.max_tolerate_errors = cap;
+            c.view = Some(ViewCommands::Rdh); // no report on stdout
+            c.mute_errors = true;
+            crate::inproc::leak_cfg(c)
+        })
+    };
+    let n = t.below(40);
+    let request_at: Option<usize> = if t.chance(1, 2) { Some(t.below(n + 1)) } else { None };
+    let (handle, tx, stop, _any) = fastpasta::controller::init_controller(cfg);
+    let mut errors_counted = 0u64;
+    let mut fatal = false;
+    let mut history: Vec<String> = vec![];
+    for i in 0..n {
+        if request_at == Some(i) {
+            stop.store(true, Ordering::SeqCst);
+            history.push("STOP-REQUEST".into());
+        }
+        let msg = match t.weighted(&[10, 4, 3, 2, 1]) {
+            0 => {
+                if !fatal {
+                    errors_counted += 1;
+                }
+                history.push("Error".into());
+                StatType::Error(format!("{:#X}: [E10] RDH sanity check failed: generated", 64 * i).into())
+            }
+            1 => {
+                history.push("RDHSeen".into());
+                StatType::RDHSeen(1)
+            }
+            2 => {
+                history.push("HBFsSeen".into());
+                StatType::HBFsSeen(1)
+            }
+            3 => {
+                history.push("PayloadSize".into());
+                StatType::PayloadSize(t.below(9000) as u32)
+            }
+            _ => {
+                if t.chance(1, 6) {
+                    fatal = true;
+                    history.push("Fatal".into());
+                    StatType::Fatal("generated fatal".into())
+                } else {
+                    history.push("LinksObserved".into());
+                    StatType::LinksObserved(t.below(12) as u8)
+                }
+            }
+        };
+        if tx.send(msg).is_err() {
+            break;
+        }
+    }
+    if request_at == Some(n) {
+        stop.store(true, Ordering::SeqCst);
+        history.push("STOP-REQUEST".into());
+    }
+    drop(tx);
+    if handle.join().is_err() {
+        return Err(Fail::new("C17:controller-panic", "the statistics controller thread panicked", json!({"cap": cap, "history": history})));
+    }
+    let got = stop.load(Ordering::SeqCst);
+    let cap_reached = cap > 0 && errors_counted >= cap as u64;
+    let want = request_at.is_some() || cap_reached || fatal;
+    if got != want {
+        let what = if want { if request_at.is_some() && !cap_reached && !fatal { "stop-request-withdrawn" } else { "stop-not-raised" } } else { "spurious-stop" };
+        return Err(Fail::new(
+            format!("C17:stop-flag:{what}"),
+            format!("stop flag after all messages = {got}, expected {want} (cap {cap}, {errors_counted} errors counted, fatal {fatal}, outside request {:?})", request_at),
+            json!({"cap": cap, "history": history, "request_at": request_at}),
+        ));
+    }
+    let mut out = CaseOut::default();
+    out.nontrivial = request_at.map(|k| k < n).unwrap_or(false) && history.iter().skip(request_at.unwrap_or(0)).any(|h| h == "Error");
+    out.fingerprint = fnv64(history.join(",").as_bytes()) ^ cap as u64;
+    out.labels.push(format!("flag:{}", if want { "raised" } else { "clear" }));
+    if request_at.is_some() {
+        out.labels.push("flag:outside_request".into());
+    }
+    if cap_reached {
+        out.labels.push("flag:cap_reached".into());
+    }
+    if fatal {
+        out.labels.push("flag:fatal".into());
+    }
+    if out.nontrivial {
+        out.labels.push("flag:errors_after_request".into());
+    }
+    if w.take_sample() {
+        out.sample = Some(json!({"kind": "stop_flag", "cap": cap, "history": history, "flag": got}));
+    }
+    Ok(out)
+}
+
 pub fn build() -> Property {
     Property {
         id: "C17",
@@ -324,16 +433,21 @@ pub fn build() -> Property {
                fatal framing error at a random packet} x mode {three views +-d, filtered write to stdout / file, check with statistics to stdout, check all its} x source {file, pipe fed in 64 KiB chunks} x \
                perturbation {off, random, slow validator, slow collector, slow writer} x input size 0.1..8 MB (conforming G_conf stream replicated with shifted orbits so that queues fill). \
                Oracle: the process exits by itself within the watchdog (all threads joined), no panic text, no terminating signal, exit in {0,1,n}; a partial -o file is a prefix of the expected filtered output made of whole packets. \
-               Non-trivial = the stop provably landed mid-run (process alive when signalled / pipe closed before EOF of the baseline output / cap below the error count / fatal message seen).",
+               Non-trivial = the stop provably landed mid-run (process alive when signalled / pipe closed before EOF of the baseline output / cap below the error count / fatal message seen). \
+               Second phase (in-process, the statistics controller alone): message histories of up to 40 statistics messages (errors, counters, fatal) x error cap {none, 1..13, huge} x an outside stop request raised on the shared flag at any position; \
+               oracle: final flag = outside request OR cap reached OR fatal seen (a stop request is never withdrawn, nothing else raises it), the controller thread ends without panic.",
         assumptions: vec![
             "timing is sampled, not enumerated; a replay pins input, command, delay fraction and perturbation seed".into(),
             "a stalled producer on stdin (no data, no EOF) is outside the statement".into(),
             "a watchdog expiry counts only when reproduced three times (60 s, 240 s under perturbation)".into(),
         ],
-        phases: vec![Phase {
-            name: "fault_schedules",
-            kind: PhaseKind::Gen { cases: (1000, 8000), tape_len: 64 + 64 + 2000 + 4 * 4000, f: Box::new(case) },
-            threads: 16,
-        }],
+        phases: vec![
+            Phase {
+                name: "fault_schedules",
+                kind: PhaseKind::Gen { cases: (1000, 8000), tape_len: 64 + 64 + 2000 + 4 * 4000, f: Box::new(case) },
+                threads: 16,
+            },
+            Phase { name: "stop_flag_histories", kind: PhaseKind::Gen { cases: (4000, 60000), tape_len: 200, f: Box::new(stop_flag_case) }, threads: 8 },
+        ],
     }
 }
